@@ -35,6 +35,24 @@ CONFIGS = {
 }
 
 
+def _prepare_corpus():
+    """(re)generate the C17 corpus crate under .cache/corpus (path-depends on the current /repo)"""
+    out = os.path.join(CACHE, "corpus")
+    r = subprocess.run([sys.executable, os.path.join(VERIF, "corpus", "gen.py"), out, REPO], capture_output=True, text=True)
+    if r.returncode != 0:
+        raise FactsError("corpus generator failed: " + r.stdout + r.stderr)
+    shutil.copyfile(os.path.join(REPO, "Cargo.lock"), os.path.join(out, "Cargo.lock"))
+    return out
+
+
+# configurations that are not plain `cargo check` runs in /repo: name -> (prepare fn returning cwd, cargo args, expected crates)
+SPECIAL = {
+    "corpus": (_prepare_corpus, [], ["verif_corpus"]),
+}
+CONFIGS["pmcore"] = (["-p", "jsonrpsee-proc-macro-core"], ["jsonrpsee_proc_macro_core"])
+CONFIGS["repo-programs"] = (["-p", "jsonrpsee-integration-tests", "-p", "jsonrpsee-examples", "-p", "jsonrpsee-proc-macro-core", "--tests", "--examples", "--lib"], ["jsonrpsee_proc_macro_core"])
+
+
 def tree_hash(repo=None):
     repo = repo or REPO
     h = hashlib.sha256()
@@ -126,6 +144,9 @@ def ensure_facts(config="libs-all", verbose=False):
     """Returns (dir with fact files, tree hash). Raises FactsError (fail closed) if extraction fails."""
     os.makedirs(CACHE, exist_ok=True)
     th = tree_hash()
+    if config in SPECIAL:
+        with open(os.path.join(VERIF, "corpus", "gen.py"), "rb") as fh:
+            th = hashlib.sha256((th + hashlib.sha256(fh.read()).hexdigest()).encode()).hexdigest()[:24]
     out_dir = os.path.join(CACHE, "facts", th, config)
     stamp = os.path.join(out_dir, "OK")
     lock_path = os.path.join(CACHE, "lock")
@@ -136,9 +157,14 @@ def ensure_facts(config="libs-all", verbose=False):
                 return out_dir, th
             if os.path.isdir(out_dir):
                 shutil.rmtree(out_dir)
-            cargo_args, expected = CONFIGS[config]
             t0 = time.time()
-            rc, out = run_driver(out_dir, cargo_args)
+            if config in SPECIAL:
+                prep, cargo_args, expected = SPECIAL[config]
+                cwd = prep()
+                rc, out = run_driver(out_dir, cargo_args, cwd=cwd)
+            else:
+                cargo_args, expected = CONFIGS[config]
+                rc, out = run_driver(out_dir, cargo_args)
             if rc != 0:
                 raise FactsError("cargo check with the mirfacts driver failed for config %s:\n%s" % (config, out[-6000:]))
             files = [f for f in os.listdir(out_dir) if f.endswith(".json")]
